@@ -1,4 +1,4 @@
-import Chain33Model.Proofs.C10
+import Chain33Model.Proofs.C10Multi
 /-!
 C10 — Indexed tables keep rows and indexes consistent.  Property theorems only.
 
@@ -109,6 +109,19 @@ theorem single_op_per_key_keeps_shape (db : TDB) (m : Spec) (ops : List Op)
     · right
       refine ⟨ix, hix, x, r.primary, by rw [hprim]; exact hns op hop, by rw [hprim]; exact hne op hop, ?_⟩
       exact Prod.ext h2 h3
+
+/-- PARTIAL (added hypothesis `GoodRun m (fun _ => .fresh) ops`, a condition on the operation
+sequence and the map at the last save only): several operations per key before one save are merged
+correctly — every answer is the map's answer and the save brings the db to the encoding of the
+map after the operations — as long as, for a key that was stored at the last save, nothing follows
+a buffered Del and no Del follows a buffered Update/Replace; for a key that was not stored
+(Add→Update, Add→Del, Add→Del→Add, Replace→Replace→Del …) there is no restriction. -/
+theorem multi_op_refines_partial (db : TDB) (m : Spec) (ops : List Op)
+    (hrep : Rep db m) (hns : ∀ op ∈ ops, NoSep op.pk) (hgood : GoodRun m (fun _ => .fresh) ops) :
+    (run { db := db } ops).2 = (specRun m ops).2 ∧
+    ∃ kvs, saveKVs (run { db := db } ops).1 = some kvs ∧ Rep (applyKVs db kvs) (specRun m ops).1 := by
+  obtain ⟨hres, fl', hinv⟩ := run_inv db m hrep ops { db := db } m (fun _ => .fresh) (inv_init db m) hns hgood
+  exact ⟨hres, inv_save db m hrep _ _ fl' hinv⟩
 
 /-! ### index lookups -/
 
@@ -269,6 +282,22 @@ example :
     (run { db := db1 } [.update ⟨p0, v1, v0, [101]⟩, .add ⟨[112, 49], v0, v1, [102]⟩, .del [112, 50]]).2
       = [.ok, .ok, .notfound] :=
   ⟨rep_db1, by decide⟩
+
+/-- non-vacuity of `multi_op_refines_partial`: on the one-row table, a good run with several
+operations per key (Update→Replace on the stored key; Add→Update→Del→Add on a new key; a failing
+Del), whose answers are not all `ok`; the three refuting runs below are NOT good. -/
+example :
+    GoodRun m1 (fun _ => .fresh)
+      [.update ⟨p0, v1, v0, [101]⟩, .replace ⟨p0, v1, v1, [102]⟩, .add ⟨[112, 49], v0, v1, [103]⟩,
+       .update ⟨[112, 49], v1, v1, [104]⟩, .del [112, 49], .add ⟨[112, 49], v0, v0, [105]⟩, .del [112, 50]] ∧
+    (run { db := db1 }
+      [.update ⟨p0, v1, v0, [101]⟩, .replace ⟨p0, v1, v1, [102]⟩, .add ⟨[112, 49], v0, v1, [103]⟩,
+       .update ⟨[112, 49], v1, v1, [104]⟩, .del [112, 49], .add ⟨[112, 49], v0, v0, [105]⟩, .del [112, 50]]).2
+      = [.ok, .ok, .ok, .ok, .ok, .ok, .notfound] ∧
+    ¬ GoodRun m1 (fun _ => .fresh) [.del p0, .add r0] ∧
+    ¬ GoodRun m1 (fun _ => .fresh) [.del p0, .replace ⟨p0, v0, v1, [100]⟩] ∧
+    ¬ GoodRun m1 (fun _ => .fresh) [.update ⟨p0, v1, v0, [100]⟩, .del p0] := by
+  decide
 
 /-- REFUTED (S-C10a): `Del p0; Add p0` before a save — the map says the Add succeeds (the key is
 absent), the table answers dup.  Replayed on the code by corpus/C10/s_c10a.ops. -/
